@@ -299,6 +299,18 @@ def run(tier, seed, replay=None):
                 if back:
                     judge(ck, [t[0] for t in lit], [t[1] for t in lit], [t[2] for t in lit], 'corpus')
 
+    # ---- uses of a binder outside the region where it is in scope (one small module per scope boundary kind)
+    from gen.scopes import scope_violation_programs
+    svr = Rng(seed ^ 0x5C06E)
+    svs = []
+    for rep in range(3 if tier == 'quick' else 20):
+        svs += scope_violation_programs(svr.fork())
+    sres = par_jobs([{'id': i, 'sources': x['sources'], 'entries': ['Main'], 'compile': True} for i, (_, x) in enumerate(svs)])
+    smuts = [{'module': 'Main', 'kind': 'unbound-var:out-of-scope:' + k, 'what': 'use of a binder outside its scope (%s)' % k,
+              'site': [0, 0], 'edit': x['sources']['Main'][-400:]} for k, x in svs]
+    judge(ck, smuts, sres, [dict(x, kind=m['kind'], what=m['what']) for (_, x), m in zip(svs, smuts)], 'scope-violation')
+    ck.extra_cov['scope_violation_programs'] = len(svs)
+
     # ---- generated programs
     rng = Rng(seed ^ 0xC06)
     nprog = 150 if tier == 'quick' else 1200
